@@ -9,6 +9,9 @@ PROPS = [json.loads(l)["id"] for l in open(os.path.join(HERE, "properties.jsonl"
 RUN_NOTE = ("trusted: the FakeKernel model of fork/waitpid/SIGCHLD/killpg (harness/fakekernel.py), TLC, and that signal "
             "handlers only matter at the interposed calls; exhaustive only for <= 3 tasks on the model side")
 
+STORE_NOTE = ("trusted: the projection of cond-out to the abstract store state (harness/clirunner.py project_store), sqlite commit "
+              "atomicity, TLC; on-disk state changes only at effectful C calls of the main thread")
+
 CHECKS = {
     "C01": ("model_checking", "Executor.tla+PlannerCore.tla model-checked (all ordered-deps graphs on 3 tasks x kinds x par x jobs x "
             "stop x exit codes x interleavings) with the RunObs monitor; real `cond run` under an interposed process layer on "
@@ -25,11 +28,66 @@ CHECKS = {
     "C04": ("model_checking", "as C01, clauses AtMostJobs, SequentialAlone, DistinctSlots, SlotRange, SlotIffParallel evaluated on "
             "the kernel's view of running processes; model invariant SlotStack", RUN_NOTE,
             "TLC model checking + TLC trace judging of interposed real executions", "6 C04"),
+    "C05": ("model_checking", "RelevanceCore.tla: documented rule vs the code's loops, equal on every commit DAG with <= 4 commits x "
+            "HEAD x row sets x flags (TLC); the exported instances are built as real git repositories and `cond where`, `cond run` and "
+            "a dependent's COND_DEPS are observed and judged by TLC (Relevance_Trace.tla)",
+            "trusted: git itself; the FakeKernel for the spawn/cached observation; universes limited to 3 commits on the conformance side",
+            "TLC model checking + conformance of TLC-exported instances on real git", "6 C05"),
+    "C06": ("fault_enumeration", "every run / restore / archive / gc of a set of histories is killed before each effectful C call; the "
+            "surviving disk is projected and judged by TLC against StoreObs (IndexImpliesData, RowsOnlyForExit0, SuccessRecorded, "
+            "RowCarriesHeadAndDirty); Store.tla with Crash at every step model-checked against the same clauses", STORE_NOTE,
+            "crash-point enumeration judged by TLC + TLC model checking of Store.tla", "6 C06"),
+    "C07": ("model_checking", "Planner.tla InvSnapshotExact (model-checked); spawn argv/env/cwd recorded at fork_exec on random graphs "
+            "with args/options/nesting/cache states and judged by TLC (RunObs Env* clauses); conductor.lib evaluated inside real tasks "
+            "(LibAgrees)", RUN_NOTE + "; args/options restricted to shell-inert tokens",
+            "TLC model checking + TLC trace judging of interposed and real executions", "6 C07"),
+    "C08": ("model_checking", "Store.tla (clock stutter / step back, failed and crashed runs, foreign archives) model-checked; real "
+            "histories with a fake clock judged by TLC against StoreObs (IdAboveRecorded, DirFresh, DirEmptyAtStart, IdUnique, "
+            "RecordedImmutable)", STORE_NOTE, "TLC model checking + TLC judging of real command histories", "6 C08"),
     "C09": ("model_checking", "Executor.tla with the kernel (zombies, coalesced SIGCHLD, optional second reaper) checked for "
             "deadlock freedom, termination under weak fairness and the accounting clauses; real Popen lifecycle + SigchldHelper "
             "under the FakeKernel with schedules that let CPython's own waitpid(pid) polls race the handler, plus stateless DFS "
             "over all schedules of tiny scenarios", RUN_NOTE,
             "TLC model checking (safety + liveness) + TLC trace judging of interposed real executions", "6 C09"),
+    "C10": ("exploration", "Tee.tla (pipe / tee thread / join / record protocol) model-checked; real executions emitting "
+            "self-delimiting blocks on both descriptors, logs and forwarded streams parsed back to token sequences and judged by TLC; "
+            "args.json / options.json presence and decoded equality", "byte-level fidelity only on the generated vectors; NaN excluded",
+            "TLC model checking of the protocol + TLC judging of token sequences from real executions", "6 C10"),
+    "C11": ("model_checking", "StoreObs Selected/ClosureIds/ArchiveClauses/RoundTripClauses; Store.tla archive+restore model-checked; "
+            "real archive (every flag combination) -> restore into a fresh copy -> compare, judged by TLC", STORE_NOTE,
+            "TLC model checking + TLC judging of real command histories", "6 C11"),
+    "C12": ("fault_enumeration", "real archives damaged in every listed way, restored into several prior states, with the restore killed "
+            "before every effectful C call and after a previously killed restore; judged by TLC (StoreObs restore clauses); Store.tla "
+            "restore steps with Crash model-checked", STORE_NOTE + "; killed after the commit point counts as completed",
+            "fault/crash enumeration judged by TLC + TLC model checking of Store.tla", "6 C12"),
+    "C13": ("model_checking", "Store.tla gc model-checked; real trees reached by real histories plus manual additions (symlinks, twins, "
+            "look-alikes), gc --dry-run / -v / plain judged by TLC (StoreObs Gc* clauses)", STORE_NOTE,
+            "TLC model checking + TLC judging of real command histories", "6 C13"),
+    "C14": ("model_checking", "Loader.tla: declarative verdict sets vs the two DFS algorithms, for every digraph over 3 defined + 1 "
+            "undefined task with every ordered dependency list; the same instances run through the real cond run --check / cond run / "
+            "validate_all_loaded_tasks and judged by TLC (Loader_Trace.tla)", "exhaustive for 3 tasks only; whole-project validation "
+            "called through TaskIndex", "TLC model checking + conformance of TLC-exported instances", "6 C14"),
+    "C15": ("exploration", "CondSchema.tla acceptance over abstract definitions (43 440), include() and Python-failure classes; each "
+            "concretised into COND source and run through the real CLI; TLC judges acceptance, clean diagnostics, nothing executed",
+            "representative concrete values per class; names that cannot be targeted are checked through a sibling task",
+            "specification-derived vectors judged by TLC", "6 C15"),
+    "C16": ("fault_enumeration", "SIGINT/SIGTERM handler invoked at every executed line (quick: sampled) of Conductor's code and after "
+            "each fork_exec under the FakeKernel; judged by TLC (RunObs AllLiveKilled, AbortedNotInternal, RowsOnlyForExit0); three "
+            "narrow windows are known findings", RUN_NOTE + "; delivery points = executed lines of Conductor's own code",
+            "abort-point enumeration judged by TLC", "6 C16"),
+    "C17": ("exploration", "every sub-command x flag combination executed on identical copies from 6 working directories + a nested "
+            "project; every (root, cwd) pair judged by TLC (StoreObs.CwdClauses / NestedClauses)", STORE_NOTE,
+            "differential executions judged by TLC", "6 C17"),
+    "C18": ("exploration", "combine over every dependency kind in nested packages across runs; links compared with the COND_DEPS a "
+            "sibling task received in the same invocation, conflicts planted; judged by TLC (StoreObs.CombineClauses)", STORE_NOTE,
+            "real command histories judged by TLC", "6 C18"),
+    "C19": ("translation_validation", "Schema.tla Expand/Rejected; group form vs explicit form generated from the specification's "
+            "expansion: equal materialised graphs, equal executions, and the group-form execution judged by TLC (RunObs) against the "
+            "contract of the explicit task list", RUN_NOTE, "translation validation against the specification's expansion", "6 C19"),
+    "C20": ("model_checking", "Identifier.tla: generator = recogniser, parse/print round trip, output-directory injectivity (TLC, all "
+            "strings <= 5); the real code run on every string up to length 5 (6 in thorough) over a 12-character alphabet and the "
+            "accepted sets / parsed table compared by TLC", "alphabet of class representatives", 
+            "TLC evaluation of grammar theorems + exhaustive conformance of the recognisers", "6 C20"),
 }
 
 NA = {}
